@@ -536,7 +536,7 @@ func parseRule(node *yaml.Node, offsetLine, offsetColumn int, contentLines []str
 func unpackNodes(node *yaml.Node) []*yaml.Node {
 	nodes := make([]*yaml.Node, 0, len(node.Content))
 	var isMerge bool
-	for _, part := range node.Content {
+	for i, part := range node.Content {
 		if isMerge {
 			// This is the value of a merge key: a mapping or a list of mappings,
 			// written in place or as an alias.
@@ -552,7 +552,8 @@ func unpackNodes(node *yaml.Node) []*yaml.Node {
 			}
 			continue
 		}
-		if part.ShortTag() == mergeTag && part.Value == "<<" {
+		// Only a key of a mapping can be a merge key.
+		if node.Kind == yaml.MappingNode && i%2 == 0 && part.ShortTag() == mergeTag && part.Value == "<<" {
 			isMerge = true
 			continue
 		}
